@@ -6,8 +6,8 @@ From Coq Require Import ZArith List String.
 From Hera.Lib Require Import Py Machine Word16.
 From Hera.Gen Require Import Ops.
 From Hera.Spec Require Import ISA Wf EncTable.
-From Hera.Model Require Import OpRep InstrOf Bitvec Run.
-From Hera.Proofs Require Import C02_Run C02_Init C05_Sweep C05_Codec C06_Decode C06_Sim C06_Image.
+From Hera.Model Require Import OpRep InstrOf Bitvec Run Listing.
+From Hera.Proofs Require Import C02_Run C02_Init C05_Sweep C05_Codec C06_Decode C06_Sim C06_Image C06_Listing.
 Import ListNotations.
 Open Scope Z_scope.
 
@@ -52,3 +52,38 @@ Theorem C06_exec_data_mem : forall o s, data_op_ok o -> wf_vm s -> 0 <= dc s -> 
              mem_zero_from s' (dc s + data_size o).
 Proof. exact exec_data_mem. Qed.
 Print Assumptions C06_exec_data_mem.
+
+(* the printed form (Model/Listing.v, tied to assemble_and_print character by character): a strict reader of the
+   format gets back exactly the words that were printed, and decoding them gives back the instructions *)
+Theorem C06_code_listing_reads_back : forall ws, ws <> [] -> Forall word ws ->
+  read_code (code_listing ws) = Some ws.
+Proof. exact read_code_listing. Qed.
+Print Assumptions C06_code_listing_reads_back.
+
+Theorem C06_listing_disassembles : forall instrs, instrs <> [] -> Forall (fun i => valid_instr i = true) instrs ->
+  option_map (map decode_word) (read_code (code_listing (map word_of instrs))) =
+  Some (map (fun i => Some (canon i)) instrs).
+Proof. exact listing_disassembles. Qed.
+Print Assumptions C06_listing_disassembles.
+
+(* the Logisim data image: data_start-1 zero cells, the next free cell, then the data cells; so cell i of the
+   data segment lies at address data_start + i, whatever the data start and the cells *)
+Theorem C06_data_listing_reads_back : forall ds cells,
+  1 <= ds -> ds + Z.of_nat (List.length cells) <= 65536 -> Forall word cells ->
+  read_image (data_listing ds cells) = Some (image_of ds cells).
+Proof. exact read_data_listing. Qed.
+Print Assumptions C06_data_listing_reads_back.
+
+Theorem C06_data_image_cells : forall ds cells, 1 <= ds ->
+  (forall a, 0 <= a < ds - 1 -> cell_at (image_of ds cells) a = 0) /\
+  cell_at (image_of ds cells) (ds - 1) = Z.of_nat (List.length cells) + ds /\
+  (forall i, 0 <= i < Z.of_nat (List.length cells) -> cell_at (image_of ds cells) (ds + i) = nth (Z.to_nat i) cells 0).
+Proof. exact image_cells. Qed.
+Print Assumptions C06_data_image_cells.
+
+Example C06_listing_example :
+  data_listing 49153 [5; 0; 65535] =
+    [52; 57; 49; 53; 50; 42; 48; 10; 99; 48; 48; 52; 10; 53; 10; 48; 10; 102; 102; 102; 102] /\
+  read_image (data_listing 49153 [5; 0; 65535]) = Some [(49152, 0); (1, 49156); (1, 5); (1, 0); (1, 65535)] /\
+  read_code (code_listing [0; 65535; 4779]) = Some [0; 65535; 4779].
+Proof. vm_compute. repeat split. Qed.
